@@ -297,7 +297,7 @@ def run(tier, only=None):
     t0 = time.time()
     specs = [s for s in SPLITS if not only or s[0] in only or s[0].split(".")[0] in only]
     obs = []
-    if specs and not (only and set(only) <= {"kani", "split"}):
+    if specs and not (only and set(only) <= {"kani", "split", "zz"}):
         ds = [split_driver(s[0], s[1], s[2], F.BYTAG[s[3]]) for s in specs]
         built = build(ds, tag="C11-default")
         timeout = 120 if tier == "quick" else 1200
@@ -320,6 +320,14 @@ def run(tier, only=None):
         built.close()
     else:
         merr = None
+    if not only or "zz" in only:
+        from . import C11_zz as ZZ
+        shifts = ZZ.SHIFTS_QUICK if tier == "quick" else ZZ.SHIFTS_ALL
+        zb = build(ZZ.drivers(shifts), tag="C11-zz")
+        try:
+            obs.extend(ZZ.obligations(zb, tier, shifts, 60 if tier == "quick" else 300))
+        finally:
+            zb.close()
     if not only or "split" in only:
         from . import C11_split as SP
         obs.extend(SP.obligations(tier))
